@@ -1,18 +1,34 @@
 """C18  Pool SoC and capacity are the documented aggregates of working batteries.
 
-Term (E-T) attribute inference on SoCCalculator.calculate / CapacityCalculator.calculate plus
-guard-dominance and sibling rules on the exclusion of non-working or incomplete batteries.
+Term (E-T) attribute inference on SoCCalculator.calculate / CapacityCalculator.calculate, decided on
+the *paths* of the code (symbolic execution of the loop body and of the code after the loop, see
+`_c18_util.SymExec`): every role is bound by dataflow —
+
+  data        `metrics_data[b]` for the loop variable b of the loop over the working-batteries parameter
+  metric      `data.get(ComponentMetricId.X)`
+  sentinel    the loop-carried variable updated to `max(itself, data.timestamp)`
+  Σw, Σw·s    the other loop-carried variables that are read after the loop, by the normal form of
+              what a qualifying iteration adds to them
+  s           the quotient (Σw·s increment) / w on each path
+
+so local names, statement order, `x += e` vs `x = x + e`, if/else vs conditional expression vs early
+exit, introduced / inlined locals, keyword vs positional arguments and code moved into private helpers
+do not matter.  Sibling rules on the working-set handling of SendOnUpdate and the NaN filter of the
+fetcher are decided on set-algebra terms / CFG dominance with reaching definitions.
 """
 from __future__ import annotations
 
 import ast
 from fractions import Fraction
+from typing import Any
 
 from ..engine.cfg import CFG
+from ..engine.normalize import inline_helpers, positional
 from ..engine.report import AnalysisError, Run
-from ..engine.resolver import FuncInfo, Program, body_walk
-from ..engine.terms import Poly, TermEval, single_defs
-from ..engine.util import canon, canon_total, find_calls, method_call, node_writes, nodes_with_call, u
+from ..engine.resolver import FuncInfo, Program, body_walk, walk_no_nested
+from ..engine.terms import Poly
+from ..engine.util import find_calls, method_call, node_writes, reaching_defs, u, writes_of
+from ._c18_util import NONE, Leaf, SymExec, cneg, div_atom, div_linear, fmt, interval
 
 MC = "timeseries.battery_pool._metric_calculator"
 METH = "timeseries.battery_pool._methods"
@@ -20,260 +36,560 @@ FETCH = "timeseries.battery_pool._component_metric_fetcher"
 
 METRIC = {"ComponentMetricId.CAPACITY": "capacity", "ComponentMetricId.SOC": "soc",
           "ComponentMetricId.SOC_LOWER_BOUND": "lower", "ComponentMetricId.SOC_UPPER_BOUND": "upper"}
+ROLES = set(METRIC.values())
+SET_WRAPPERS = ("sorted", "list", "tuple", "set", "frozenset")
+
+CAP, SOC, LO, UP = (Poly.atom(x) for x in ("capacity", "soc", "lower", "upper"))
+W = CAP * (UP - LO)
+RANGE_INV = Poly.atom(f"inv({(UP - LO)!r})")
+GENERAL = (SOC - LO) * RANGE_INV * Poly.const(100)
 
 
-def loop_of(fn: FuncInfo) -> ast.For:
-    loops = [s for s in fn.node.body if isinstance(s, ast.For)]
-    if len(loops) != 1:
-        raise AnalysisError(f"{fn.qual}: aggregation loop not found")
-    return loops[0]
+def per_weight(p: Poly | None) -> Poly | None:
+    """s with p == w·s for the weight w = capacity·(upper − lower) (exact division), else None."""
+    q = div_atom(p, "capacity") if p is not None and not p.is_zero() else p
+    return div_linear(q, "upper", LO) if q is not None and not q.is_zero() else q
 
 
-def metric_locals(loop: ast.For) -> dict[str, str]:
-    """local name -> canonical metric role (capacity / soc / lower / upper)."""
-    out = {}
-    for s in loop.body:
-        if isinstance(s, ast.Assign) and isinstance(s.value, ast.Call) and isinstance(s.value.func, ast.Attribute) \
-                and s.value.func.attr == "get" and len(s.value.args) == 1 and u(s.value.args[0]) in METRIC:
-            out[u(s.targets[0])] = METRIC[u(s.value.args[0])]
-    return out
+# =============================================================================================
+# model of one calculator: paths of the loop body and of the code after the loop
+# =============================================================================================
+class Calc:
+    def __init__(self, prog: Program, fn: FuncInfo) -> None:  # noqa: C901
+        self.fn = fn
+        body = list(fn.node.body)
+        loops = [i for i, s in enumerate(body) if isinstance(s, ast.For)]
+        if len(loops) != 1 or any(isinstance(n, (ast.For, ast.While, ast.AsyncFor)) and n is not body[loops[0]]
+                                  for n in body_walk(fn.node)):
+            raise AnalysisError(f"{fn.qual}: aggregation loop not found")
+        self.loop: ast.For = body[loops[0]]  # type: ignore[assignment]
+        if self.loop.orelse or not isinstance(self.loop.target, ast.Name):
+            raise AnalysisError(f"{fn.qual}: unsupported loop shape")
+        if len(fn.params) < 3:
+            raise AnalysisError(f"{fn.qual}: signature changed")
+        self.md, self.wb = fn.params[1], fn.params[2]
+        self.data_atoms = {f"{self.md}[BID]", f"{self.md}.get(BID)"}
+        self.roles: dict[str, str] = {}  # role atom -> data atom it was read from
+        self.sym = SymExec(prog, fn, call_hook=self._call_hook)
+        # ---- before the loop: straight-line initialisation
+        pre = self.sym.run(body[:loops[0]], {})
+        if len(pre) != 1 or pre[0].kind != "fall" or pre[0].facts:
+            raise AnalysisError(f"{fn.qual}: code before the loop is not a straight-line initialisation")
+        self.pre_env = pre[0].env
+        # ---- iteration domain
+        it: ast.AST = self.loop.iter
+        while isinstance(it, ast.Call) and u(it.func) in SET_WRAPPERS and len(it.args) == 1 and not it.keywords:
+            it = it.args[0]
+        self.iter_term = repr(self.sym.ev(it, self.pre_env))
+        # ---- one iteration, every path
+        assigned = sorted({n.id for s in self.loop.body for n in ast.walk(s)
+                           if isinstance(n, ast.Name) and isinstance(n.ctx, (ast.Store, ast.Del))})
+        if self.loop.target.id in assigned or any(x in assigned for x in (self.md, self.wb)):
+            raise AnalysisError(f"{fn.qual}: loop variable or parameter rebound in the loop")
+        env0 = dict(self.pre_env)
+        for v in assigned:
+            env0[v] = Poly.atom(f"{v}@0")
+        env0[self.loop.target.id] = Poly.atom("BID")
+        self.body = self.sym.run(self.loop.body, env0)
+        bad = [x for x in self.body if x.kind not in ("fall", "continue")]
+        if bad:
+            raise AnalysisError(f"{fn.qual}: `{bad[0].kind}` inside the aggregation loop")
+        # ---- loop-carried state that is observable after the loop
+        post_stmts = body[loops[0] + 1:]
+        read_after = {n.id for s in post_stmts for n in ast.walk(s) if isinstance(n, ast.Name) and isinstance(n.ctx, ast.Load)}
+        self.carried = [v for v in assigned if v in read_after]
+        if not self.carried:
+            raise AnalysisError(f"{fn.qual}: accumulator / timestamp updates not found")
+        for v in self.carried:
+            if v not in self.pre_env:
+                raise AnalysisError(f"{fn.qual}: `{v}` is read after the loop but not initialised before it")
+        # ---- sentinel: the carried variable updated to max(itself, data.timestamp)
+        self.sentinel: str | None = None
+        cands = [v for v in self.carried if any(self.is_ts_update(x, v) for x in self.body)]
+        if len(cands) == 1:
+            self.sentinel = cands[0]
+        self.accs = [v for v in self.carried if v != self.sentinel]
+        # ---- after the loop
+        env1 = dict(self.pre_env)
+        for v in assigned:
+            env1[v] = Poly.atom(f"{v}@loop")
+        self.post = self.sym.run(post_stmts, env1)
+        bad = [x for x in self.post if x.kind != "return"]
+        if bad or not self.post:
+            raise AnalysisError(f"{fn.qual}: a path after the loop does not end in `return` ({bad[0].kind if bad else 'none'})")
+
+    # ------------------------------------------------------------------ atoms
+    def _call_hook(self, sym: SymExec, fname: str, recv: str | None, args: list[Poly], kws: dict[str, Poly],
+                   call: ast.Call) -> Poly | None:
+        if recv in self.data_atoms and fname == f"{recv}.get" and len(args) == 1 and not kws \
+                and repr(args[0]).startswith("ComponentMetricId."):
+            role = METRIC.get(repr(args[0]), f"metric:{args[0]!r}")
+            if self.roles.setdefault(role, recv) != recv:
+                raise AnalysisError(f"{self.fn.qual}: metric {role} read from two different records")
+            return sym.mk(role, ("metric", recv, repr(args[0])))
+        if fname == "Sample":
+            a = dict(zip(["timestamp", "value"], args))  # keyword and positional forms coincide
+            a.update(kws)
+            if set(a) == {"timestamp", "value"} and len(args) + len(kws) == 2:
+                return sym.mk(f"Sample({a['timestamp']!r}, {a['value']!r})", ("Sample", a["timestamp"], a["value"]))
+        if fname in ("Percentage.from_percent", "Energy.from_watt_hours") and len(args) == 1 and not kws:
+            return sym.mk(f"{fname}({args[0]!r})", ("wrap", fname, args[0]))
+        return None
+
+    # ------------------------------------------------------------------ per-path predicates
+    def present(self, x: Leaf) -> bool:
+        return ("in", "BID", self.md) in x.facts or ("isnot", frozenset({f"{self.md}.get(BID)", "None"})) in x.facts
+
+    def complete(self, x: Leaf) -> bool:
+        return bool(self.roles) and all(("isnot", frozenset({r, "None"})) in x.facts for r in self.roles)
+
+    def qualifying(self) -> list[Leaf]:
+        return [x for x in self.body if self.present(x) and self.complete(x)]
+
+    def changed(self, x: Leaf, v: str) -> bool:
+        return x.env[v] != Poly.atom(f"{v}@0")
+
+    def is_ts_update(self, x: Leaf, v: str) -> bool:
+        st = self.sym.parts(x.env[v], "max")
+        if st is None or len(st[1]) != 2:
+            return False
+        names = {repr(a) for a in st[1]}
+        return f"{v}@0" in names and any(n in {f"{d}.timestamp" for d in self.data_atoms} for n in names)
+
+    def delta(self, x: Leaf, v: str) -> Poly | None:
+        """What the path adds to the carried variable (None: the new value is not old + increment)."""
+        d = x.env[v] - Poly.atom(f"{v}@0")
+        return None if any("@0" in a for a in d.atoms()) else d
+
+    def has_fact(self, x: Leaf, pred: Any) -> bool:
+        return any(pred(f) for f in x.facts)
 
 
-def te_for(loop: ast.For, roles: dict[str, str]) -> TermEval:
-    te = TermEval({k: Poly.atom(v) for k, v in roles.items()})
-    defs = single_defs(ast.Module(body=loop.body, type_ignores=[]))
-    for _ in range(4):
-        for k, v in defs.items():
-            if k not in roles:
-                te.env[k] = te.ev(v)
-    return te
+def isclose_fact(calc: Calc, f: Any, positive: bool) -> bool:
+    """`isclose(upper, lower)` (either operand order) is true / false on the path."""
+    if not (isinstance(f, tuple) and f[0] == ("truthy" if positive else "falsy")):
+        return False
+    st = calc.sym.struct.get(f[1])
+    return st is not None and st[0] == "call" and st[1] in ("math.isclose", "isclose") \
+        and {repr(a) for a in st[2]} == {"lower", "upper"}
 
 
-def accumulations(loop: ast.For, te: TermEval) -> dict[str, Poly]:
-    out: dict[str, Poly] = {}
-    for s in ast.walk(loop):
-        if isinstance(s, ast.AugAssign) and isinstance(s.op, ast.Add) and isinstance(s.target, ast.Name):
-            out[s.target.id] = out.get(s.target.id, Poly()) + te.ev(s.value)
-    return out
-
-
-def check_form(run: Run, prog: Program) -> None:
-    soc = prog.func(f"{MC}:SoCCalculator.calculate")
-    cap = prog.func(f"{MC}:CapacityCalculator.calculate")
-    run.analysed(soc.qual)
-    run.analysed(cap.qual)
-    W = Poly.atom("capacity") * (Poly.atom("upper") - Poly.atom("lower"))
-    # ---- SoC
-    loop = loop_of(soc)
-    roles = metric_locals(loop)
-    if set(roles.values()) != {"capacity", "soc", "lower", "upper"}:
-        raise AnalysisError(f"{soc.qual}: metrics read: {roles}")
-    te = te_for(loop, roles)
-    acc = accumulations(loop, te)
-    s_name = None
-    for name, p in acc.items():
-        for a in p.atoms():
-            if a not in ("capacity", "upper", "lower", "soc"):
-                s_name = a
-    num = [n for n, p in acc.items() if s_name and p == W * Poly.atom(s_name)]
-    den = [n for n, p in acc.items() if p == W]
-    ok = len(num) == 1 and len(den) == 1
-    run.check(ok, "C18.FORM", soc.qual, "Σ w·s and Σ w with w = capacity·(upper − lower)",
-              f"the SoC accumulators are {{{', '.join(f'{k}: {v!r}' for k, v in acc.items())}}}: not a "
+# =============================================================================================
+def check_form(run: Run, prog: Program) -> None:  # noqa: C901
+    soc_fn = prog.func(f"{MC}:SoCCalculator.calculate")
+    cap_fn = prog.func(f"{MC}:CapacityCalculator.calculate")
+    run.analysed(soc_fn.qual)
+    run.analysed(cap_fn.qual)
+    # ---------------------------------------------------------------- SoC
+    soc = Calc(prog, soc_fn)
+    if set(soc.roles) != ROLES:
+        raise AnalysisError(f"{soc_fn.qual}: metrics read: {sorted(soc.roles)}")
+    q = soc.qualifying()
+    if not q or soc.sentinel is None:
+        # decided (and reported) by C18.EXCL; the formulas are stated over qualifying iterations
+        q = [x for x in soc.body if any(soc.changed(x, v) for v in soc.carried)]
+    deltas = {v: [soc.delta(x, v) for x in q] for v in soc.accs}
+    den = [v for v, ds in deltas.items() if ds and all(d == W for d in ds)]
+    num: list[str] = []
+    s_of: dict[str, list[Poly | None]] = {}
+    for v, ds in deltas.items():
+        if v in den:
+            continue
+        s_of[v] = [per_weight(d) for d in ds]
+        if ds and all(s is not None for s in s_of[v]) and any(s.const_value() is None for s in s_of[v]):  # type: ignore[union-attr]
+            num.append(v)
+    init0 = all(soc.pre_env[v].is_zero() for v in soc.accs)
+    ok = len(num) == 1 and len(den) == 1 and len(soc.accs) == 2 and init0
+    shown = {v: sorted({repr(d) if d is not None else "?" for d in ds}) for v, ds in deltas.items()}
+    run.check(ok, "C18.FORM", soc_fn.qual, "Σ w·s and Σ w with w = capacity·(upper − lower)",
+              f"per qualifying battery the SoC accumulators (initialised to 0: {init0}) grow by {shown}: not a "
               "numerator Σ w·s and a denominator Σ w sharing the weight w = capacity·(upper − lower)",
-              node=loop, file=soc.file)
+              node=soc.loop, file=soc_fn.file)
     if not ok:
         return
-    # scaled SoC: general branch and clamp
-    s_defs = [s for s in ast.walk(loop) if isinstance(s, ast.Assign) and u(s.targets[0]) == s_name]
-    general = [s for s in s_defs if te.ev(s.value) == (Poly.atom("soc") - Poly.atom("lower"))
-               * Poly.atom(f"inv({(Poly.atom('upper') - Poly.atom('lower'))!r})") * Poly.const(100)]
-    run.check(len(general) == 1, "C18.FORM", soc.qual, "s = (soc − lower)/(upper − lower)·100",
-              "the per-battery SoC is not rescaled to its limits as (soc − lower)/(upper − lower)·100",
-              node=loop, file=soc.file)
-    clamps = [s for s in s_defs if isinstance(s.value, ast.Call) and u(s.value.func) in ("min", "max")]
-    ok = False
-    if clamps:
-        c = clamps[-1].value
-        t = u(c).replace(" ", "")
-        ok = t in (f"min(max({s_name},0.0),100.0)", f"max(min({s_name},100.0),0.0)",
-                   f"min(100.0,max(0.0,{s_name}))", f"max(0.0,min(100.0,{s_name}))",
-                   f"min(max({s_name},0),100)", f"max(min({s_name},100),0)")
-        # the clamp is the last definition before the accumulation, in the loop's own suite
-        idx = [i for i, s in enumerate(loop.body) if s is clamps[-1]]
-        use = [i for i, s in enumerate(loop.body) if isinstance(s, ast.AugAssign) and u(s.target) == num[0]]
-        ok = ok and bool(idx) and bool(use) and idx[0] < use[0] and not any(
-            isinstance(s, ast.Assign) and u(s.targets[0]) == s_name for s in loop.body[idx[0] + 1:use[0]])
-    run.check(ok, "C18.RANGE", soc.qual, f"{s_name} = min(max({s_name}, 0.0), 100.0) per battery",
+    # ---- the per-battery rescaled SoC on every qualifying path
+    general_ok, clamp_ok, step_ok, mono_ok, n_general, n_step = True, True, True, True, 0, 0
+    why: list[str] = []
+    for x, s in zip(q, s_of[num[0]]):
+        assert s is not None
+        lo, hi, core = interval(soc.sym, s)
+        equal = soc.has_fact(x, lambda f: isclose_fact(soc, f, True))
+        distinct = soc.has_fact(x, lambda f: isclose_fact(soc, f, False))
+        if equal:
+            n_step += 1
+            below = ("<", "soc", "lower") in x.facts
+            above = ("<=", "lower", "soc") in x.facts
+            if not (core is None and ((below and lo == 0) or (above and lo == 100))):
+                step_ok = False
+                why.append(f"equal limits, soc {'<' if below else '>=' if above else '?'} lower: s = {s!r}")
+            continue
+        if not distinct:
+            step_ok = False  # the division by (upper − lower) is not protected against equal limits
+            why.append("a path computes s without deciding isclose(upper, lower)")
+        n_general += 1
+        if core != GENERAL:
+            general_ok = False
+            why.append(f"distinct limits: s is built from {core!r}")
+        if not (lo == 0 and hi == 100):
+            clamp_ok = False
+            why.append(f"distinct limits: s is bounded to [{lo}, {hi}]")
+        if core is None or "soc" not in core.atoms() or not all(
+                c > 0 for m, c in core.terms.items() if any(a == "soc" for a, _ in m)):
+            mono_ok = False
+    run.check(general_ok and n_general >= 1, "C18.FORM", soc_fn.qual, "s = (soc − lower)/(upper − lower)·100",
+              "the per-battery SoC is not rescaled to its limits as (soc − lower)/(upper − lower)·100"
+              + "".join(f"; {w}" for w in why if "built from" in w), node=soc.loop, file=soc_fn.file)
+    run.check(clamp_ok and n_general >= 1, "C18.RANGE", soc_fn.qual, "s = min(max(s, 0.0), 100.0) per battery",
               "each battery's rescaled SoC is not clamped to [0, 100] before it is weighted: a battery "
               "outside its limits over- or under-contributes (the pool value is no longer the weighted "
-              "mean of clamped values, even if the final result is clamped)", node=loop, file=soc.file)
-    # equal-limits branch is a non-decreasing step in soc
-    eq = [n for n in ast.walk(loop) if isinstance(n, ast.If) and "isclose" in u(n.test) and "upper" in te.text(n.test)]
-    ok = len(eq) == 1
-    if ok:
-        inner = [n for n in eq[0].body if isinstance(n, ast.If)]
-        ok = len(inner) == 1
-        if ok:
-            c = canon_total(inner[0].test, subst={k: v for k, v in roles.items()})
-            lo_v = [te.ev(s.value) for s in inner[0].body if isinstance(s, ast.Assign)]
-            hi_v = [te.ev(s.value) for s in inner[0].orelse if isinstance(s, ast.Assign)]
-            ok = c == ("<", "soc", "lower") and lo_v == [Poly()] and hi_v == [Poly.const(100)]
-    run.check(ok, "C18.MONO", soc.qual, "equal limits: soc < lower -> 0 else 100",
-              "with equal SoC limits the rescaled SoC is not the non-decreasing step 0 / 100",
-              node=loop, file=soc.file)
-    # monotone / scale-free by degrees
-    dnum, dden = acc[num[0]], acc[den[0]]
-    deg_c = (dnum.degree_in(lambda a: a == "capacity"), dden.degree_in(lambda a: a == "capacity"))
-    run.check(deg_c == ({1}, {1}), "C18.SCALE", soc.qual, "numerator and denominator are homogeneous of degree 1 in capacity",
-              f"degrees in capacity are {deg_c}: the ratio is not invariant under a common scaling of all capacities",
-              node=loop, file=soc.file)
-    if general:
-        g = te.ev(general[0].value)
-        coeff_pos = all(c > 0 for m, c in g.terms.items() if any(a == "soc" for a, _ in m))
-        run.check(coeff_pos and "soc" in g.atoms(), "C18.MONO", soc.qual, "s increases with soc",
+              "mean of clamped values, even if the final result is clamped)"
+              + "".join(f"; {w}" for w in why if "bounded" in w), node=soc.loop, file=soc_fn.file)
+    run.check(step_ok and n_step >= 2, "C18.MONO", soc_fn.qual, "equal limits: soc < lower -> 0 else 100",
+              "with equal SoC limits the rescaled SoC is not the non-decreasing step 0 / 100"
+              + "".join(f"; {w}" for w in why if "equal limits" in w or "isclose" in w), node=soc.loop, file=soc_fn.file)
+    # ---- scale-free / monotone by degrees
+    degs = [(d.degree_in(lambda a: a == "capacity")) for v in (num[0], den[0]) for d in deltas[v]
+            if d is not None and not d.is_zero()]
+    run.check(bool(degs) and all(d == {1} for d in degs), "C18.SCALE", soc_fn.qual,
+              "numerator and denominator are homogeneous of degree 1 in capacity",
+              f"degrees in capacity are {degs}: the ratio is not invariant under a common scaling of all capacities",
+              node=soc.loop, file=soc_fn.file)
+    if general_ok and n_general:
+        run.check(mono_ok, "C18.MONO", soc_fn.qual, "s increases with soc",
                   "the rescaled SoC does not increase with the battery's SoC (given upper > lower)",
-                  node=general[0], file=soc.file)
-    # result
-    cfg = CFG(soc.node, soc.file)
-    pcts = [s for s in body_walk(soc.node) if isinstance(s, ast.Assign) and u(s.targets[0]) == "pct"]
-    vals = [te.ev(s.value) for s in pcts]
-    ratio = Poly.atom(num[0]) * Poly.atom(f"inv({Poly.atom(den[0])!r})")
-    ok = ratio in vals and all(v == ratio or (v.const_value() is not None and 0 <= v.const_value() <= 100) for v in vals)
-    run.check(ok, "C18.FORM", soc.qual, "pct = Σ w·s / Σ w (or a constant in [0, 100])",
-              f"the pool SoC is assigned {[repr(v) for v in vals]}: not the weighted mean (or an in-range constant)",
-              node=soc.node, file=soc.file)
-    guard = [t for t in cfg.nodes if t.kind == "test" and "is_close_to_zero" in t.label and den[0] in t.label]
-    divs = [n.id for n in cfg.nodes if n.kind == "stmt" and isinstance(n.ast, ast.Assign) and u(n.ast.targets[0]) == "pct"
-            and te.ev(n.ast.value) == ratio]
-    ok = len(guard) == 1 and bool(divs) and cfg.path(cfg.entry, divs, avoid=[guard[0].id]) is None and \
-        not any(d in cfg.reachable([m for m, lab in cfg.succ[guard[0].id] if lab == ("true" if not u(guard[0].ast).startswith("not") else "false")]) for d in divs)
-    run.check(ok, "C18.RANGE", soc.qual, "no division when the total weight is zero",
-              "the weighted mean is computed although the total usable capacity is zero", node=soc.node, file=soc.file)
-    rets = [r for r in body_walk(soc.node) if isinstance(r, ast.Return)]
-    ok = any("Percentage.from_percent(pct)" in u(r.value).replace(" ", "") for r in rets)
-    run.check(ok, "C18.FORM", soc.qual, "returns Percentage.from_percent(pct)", "the computed value is not what is returned",
-              node=soc.node, file=soc.file)
-    # ---- capacity
-    loop_c = loop_of(cap)
-    roles_c = metric_locals(loop_c)
-    if set(roles_c.values()) != {"capacity", "lower", "upper"}:
-        raise AnalysisError(f"{cap.qual}: metrics read: {roles_c}")
-    te_c = te_for(loop_c, roles_c)
-    acc_c = accumulations(loop_c, te_c)
-    ok = list(acc_c.values()) == [W.scale(Fraction(1, 100))]
-    run.check(ok, "C18.FORM", cap.qual, "Σ capacity·(upper − lower)/100",
-              f"the pool capacity accumulates {[repr(v) for v in acc_c.values()]}: not the usable capacity "
+                  node=soc.loop, file=soc_fn.file)
+    # ---- result
+    num_a, den_a = Poly.atom(f"{num[0]}@loop"), Poly.atom(f"{den[0]}@loop")
+    inv_den = f"inv({den_a!r})"
+    ratio = num_a * Poly.atom(inv_den)
+    results = [r for r in (result_of(soc, x) for x in soc.post) if r is not None and r[1] != NONE]
+    wrapped = [soc.sym.parts(r[1], "wrap") for r in results]
+    vals = [w[2] for w in wrapped if w is not None and w[1] == "Percentage.from_percent"]
+    ok = bool(vals) and ratio in vals and all(
+        v == ratio or (v.const_value() is not None and 0 <= v.const_value() <= 100) for v in vals)
+    run.check(ok, "C18.FORM", soc_fn.qual, "pct = Σ w·s / Σ w (or a constant in [0, 100])",
+              f"the pool SoC is {sorted({repr(v) for v in vals})}: not the weighted mean (or an in-range constant)",
+              node=soc_fn.node, file=soc_fn.file)
+
+    def nonzero(f: Any) -> bool:
+        if f in (("!=", frozenset({repr(den_a), "0"})), ("<", "0", repr(den_a))):
+            return True
+        st = soc.sym.struct.get(f[1]) if isinstance(f, tuple) and f[0] == "falsy" else None
+        return st is not None and st[0] == "call" and st[1].endswith("is_close_to_zero") \
+            and [repr(a) for a in st[2]] == [repr(den_a)]
+
+    ok = True
+    for x in soc.post:
+        uses = [i for i, f in enumerate(x.facts) if inv_den in fmt(f)]
+        if x.value is not None and inv_den in repr(x.value):
+            uses.append(len(x.facts))
+        guards = [i for i, f in enumerate(x.facts) if nonzero(f)]
+        if uses and not (guards and guards[0] < uses[0]):
+            ok = False
+    run.check(ok, "C18.RANGE", soc_fn.qual, "no division when the total weight is zero",
+              "the weighted mean is computed although the total usable capacity is zero", node=soc_fn.node, file=soc_fn.file)
+    ok = bool(results) and all(w is not None and w[1] == "Percentage.from_percent" for w in wrapped)
+    run.check(ok, "C18.FORM", soc_fn.qual, "returns Percentage.from_percent(pct)", "the computed value is not what is returned",
+              node=soc_fn.node, file=soc_fn.file)
+    # ---------------------------------------------------------------- capacity
+    cap = Calc(prog, cap_fn)
+    if set(cap.roles) != ROLES - {"soc"}:
+        raise AnalysisError(f"{cap_fn.qual}: metrics read: {sorted(cap.roles)}")
+    qc = cap.qualifying()
+    if not qc or cap.sentinel is None:
+        qc = [x for x in cap.body if any(cap.changed(x, v) for v in cap.carried)]
+    deltas_c = {v: [cap.delta(x, v) for x in qc] for v in cap.accs}
+    want = W.scale(Fraction(1, 100))
+    ok = len(cap.accs) == 1 and bool(qc) and all(d == want for d in deltas_c[cap.accs[0]]) \
+        and cap.pre_env[cap.accs[0]].is_zero()
+    shown_c = {v: sorted({repr(d) if d is not None else "?" for d in ds}) for v, ds in deltas_c.items()}
+    run.check(ok, "C18.FORM", cap_fn.qual, "Σ capacity·(upper − lower)/100",
+              f"per qualifying battery the pool capacity grows by {shown_c}: not the usable capacity "
               "capacity·(upper − lower)/100 — and not the same weight (up to the constant 100) the SoC "
-              "calculator uses", node=loop_c, file=cap.file)
-    rets = [r for r in body_walk(cap.node) if isinstance(r, ast.Return)]
-    tot = next(iter(acc_c)) if acc_c else "?"
-    ok = any(f"Energy.from_watt_hours({tot})" in u(r.value).replace(" ", "") for r in rets)
-    run.check(ok, "C18.FORM", cap.qual, "returns Energy.from_watt_hours(total)", "the sum is not what is returned",
-              node=cap.node, file=cap.file)
+              "calculator uses", node=cap.loop, file=cap_fn.file)
+    tot = Poly.atom(f"{cap.accs[0]}@loop") if cap.accs else None
+    results = [r for r in (result_of(cap, x) for x in cap.post) if r is not None and r[1] != NONE]
+    wrapped = [cap.sym.parts(r[1], "wrap") for r in results]
+    ok = bool(results) and all(w is not None and w[1] == "Energy.from_watt_hours" and w[2] == tot for w in wrapped)
+    run.check(ok, "C18.FORM", cap_fn.qual, "returns Energy.from_watt_hours(total)", "the sum is not what is returned",
+              node=cap_fn.node, file=cap_fn.file)
 
 
+def result_of(calc: Calc, x: Leaf) -> tuple[Poly, Poly] | None:
+    """(timestamp, value) of the Sample a path returns."""
+    st = calc.sym.parts(x.value, "Sample")
+    return (st[1], st[2]) if st is not None else None
+
+
+# =============================================================================================
 def check_excl(run: Run, prog: Program) -> None:
     for q in (f"{MC}:SoCCalculator.calculate", f"{MC}:CapacityCalculator.calculate"):
-        fn = prog.func(q)
-        loop = loop_of(fn)
-        cfg = CFG(fn.node, fn.file)
-        wb = fn.params[2]
-        run.check(u(loop.iter) == wb, "C18.EXCL", fn.qual, f"for battery_id in {wb}",
-                  f"the aggregation iterates `{u(loop.iter)}` instead of the working batteries: batteries "
-                  "that are not working are included", node=loop, file=fn.file)
-        bid = u(loop.target)
-        roles = metric_locals(loop)
-        h = [n for n in cfg.nodes if n.kind == "for" and n.ast is loop]
-        if not h:
-            raise AnalysisError(f"{fn.qual}: loop header not in CFG")
-        body = cfg.reachable([m for m, lab in cfg.succ[h[0].id] if lab == "iter"], avoid=[h[0].id])
-        present = [t for t in (cfg.nodes[x] for x in body) if t.kind == "test" and t.ast is not None
-                   and canon(t.ast) == ("notin", bid, fn.params[1])]
-        none_want = ("or", frozenset(("is", frozenset({k, "None"})) for k in roles))
-        complete = [t for t in (cfg.nodes[x] for x in body) if t.kind == "test" and t.ast is not None and canon(t.ast) == none_want]
-        ok = len(present) == 1 and len(complete) == 1
-        run.check(ok, "C18.EXCL", fn.qual, "guards: present in data; every required metric not None",
-                  "the loop does not skip batteries that are absent from the data or lack one of the "
-                  f"required metrics ({sorted(roles.values())})", node=loop, file=fn.file)
-        if not ok:
-            continue
-        updates = [x for x in body if cfg.nodes[x].kind == "stmt" and (
-            isinstance(cfg.nodes[x].ast, ast.AugAssign) or (
-                isinstance(cfg.nodes[x].ast, ast.Assign) and u(cfg.nodes[x].ast.targets[0]) == "timestamp"))]
-        if len(updates) < 2:
-            raise AnalysisError(f"{fn.qual}: accumulator / timestamp updates not found")
-        first = [m for m, lab in cfg.succ[h[0].id] if lab == "iter"][0]
-        for x in updates:
-            for t in (present[0], complete[0]):
-                skip_side = cfg.reachable([m for m, lab in cfg.succ[t.id] if lab == "true"], avoid=[h[0].id])
-                wit = cfg.path(first, [x], avoid=[t.id, h[0].id]) if first != t.id else None
-                run.check(wit is None and x not in skip_side, "C18.EXCL", fn.qual, cfg.nodes[x].ast,
-                          "an accumulator or the timestamp sentinel is updated for a battery that is "
-                          "absent or incomplete", node=cfg.nodes[x].ast, file=fn.file, path=cfg.describe_path(wit),
-                          instance=f"{fn.qual}: `{cfg.nodes[x].text(40)}` behind `{t.label[:30]}`")
-        # timestamp sentinel
-        ts_upd = [cfg.nodes[x].ast for x in updates if isinstance(cfg.nodes[x].ast, ast.Assign)]
-        ok = len(ts_upd) == 1 and isinstance(ts_upd[0].value, ast.Call) and u(ts_upd[0].value.func) == "max" \
-            and len(ts_upd[0].value.args) == 2 and "timestamp" in {u(a) for a in ts_upd[0].value.args} \
-            and any(u(a).endswith(".timestamp") for a in ts_upd[0].value.args)
-        run.check(ok, "C18.EXCL", fn.qual, "timestamp = max(timestamp, metrics.timestamp) with the accumulators",
-                  "the 'some battery qualified' sentinel is not updated together with the accumulators",
-                  node=loop, file=fn.file)
-        txt = u(fn.node).replace(" ", "")
-        ok = "timestamp=_MIN_TIMESTAMP" in txt and "timestamp==_MIN_TIMESTAMP" in txt and "Sample(datetime.now(tz=timezone.utc),None)" in txt
-        run.check(ok, "C18.EXCL", fn.qual, "None sample iff the sentinel is untouched",
-                  "the result is not None exactly when no battery qualified", node=fn.node, file=fn.file)
-    # fetcher drops NaN metrics
+        check_excl_calc(run, Calc(prog, prog.func(q)))
+    check_fetcher(run, prog)
+    check_working_set(run, prog)
+
+
+def check_excl_calc(run: Run, calc: Calc) -> None:
+    fn, loop = calc.fn, calc.loop
+    run.check(calc.iter_term == calc.wb, "C18.EXCL", fn.qual, f"for battery_id in {calc.wb}",
+              f"the aggregation iterates `{u(loop.iter)}` instead of the working batteries: batteries "
+              "that are not working are included", node=loop, file=fn.file)
+    q = calc.qualifying()
+    qids = {id(x) for x in q}
+    others = [x for x in calc.body if id(x) not in qids]
+    ok = bool(q) and bool(others) and any(not calc.present(x) for x in others) and any(
+        calc.present(x) and not calc.complete(x) for x in others)
+    run.check(ok, "C18.EXCL", fn.qual, "guards: present in data; every required metric not None",
+              "the loop does not skip batteries that are absent from the data or lack one of the "
+              f"required metrics ({sorted(calc.roles)})", node=loop, file=fn.file)
+    if not ok:
+        return
+    if len(calc.carried) < 2:
+        raise AnalysisError(f"{fn.qual}: accumulator / timestamp updates not found")
+    for v in calc.carried:
+        for name, holds in (("present in the data", calc.present), ("every required metric not None", calc.complete)):
+            wit = [x for x in calc.body if calc.changed(x, v) and not holds(x)]
+            run.check(not wit, "C18.EXCL", fn.qual, f"update of {v}",
+                      "an accumulator or the timestamp sentinel is updated for a battery that is "
+                      "absent or incomplete", node=loop, file=fn.file,
+                      path=[f"path with {', '.join(fmt(f) for f in wit[0].facts) or 'no guard'}: "
+                            f"{v} becomes {wit[0].env[v]!r}"] if wit else None,
+                      instance=f"{fn.qual}: update of `{v}` behind `{name}`")
+    # timestamp sentinel: moved exactly on the qualifying paths, together with the accumulators
+    sen = calc.sentinel
+    ok = sen is not None and all(calc.is_ts_update(x, sen) for x in q) and not any(
+        calc.changed(x, sen) and not calc.is_ts_update(x, sen) for x in calc.body) and not any(
+        any(calc.changed(x, v) for v in calc.accs) and not calc.is_ts_update(x, sen) for x in calc.body)
+    run.check(ok, "C18.EXCL", fn.qual, "timestamp = max(timestamp, metrics.timestamp) with the accumulators",
+              "the 'some battery qualified' sentinel is not updated together with the accumulators "
+              "(on every path of a battery that is present and complete, and only there)",
+              node=loop, file=fn.file)
+    # None sample iff the sentinel still has its initial value
+    ok = sen is not None
+    if sen is not None:
+        init = calc.pre_env[sen]
+        ia = init.as_atom()
+        ok = ia is not None and "min" in ia.lower() and "@" not in ia
+        eq = ("==", frozenset({f"{sen}@loop", repr(init)}))
+        for x in calc.post:
+            r = result_of(calc, x)
+            untouched, touched = eq in x.facts, cneg(eq) in x.facts
+            if r is None or not (untouched or touched) or (untouched and touched):
+                ok = False
+            elif untouched:
+                ok = ok and r[1] == NONE and repr(r[0]).startswith("datetime.now(")
+            else:
+                ok = ok and r[1] != NONE and "None" not in r[1].atoms()
+        ok = ok and any(eq in x.facts for x in calc.post) and any(cneg(eq) in x.facts for x in calc.post)
+    run.check(ok, "C18.EXCL", fn.qual, "None sample iff the sentinel is untouched",
+              "the result is not None exactly when no battery qualified", node=fn.node, file=fn.file)
+
+
+# ---------------------------------------------------------------------------------------------
+def check_fetcher(run: Run, prog: Program) -> None:  # noqa: C901
+    """Every ComponentMetricsData built by fetch_next holds only values v with `not isnan(v)`."""
     ff = prog.func(f"{FETCH}:LatestMetricsFetcher.fetch_next")
     run.analysed(ff.qual)
-    cfg = CFG(ff.node, ff.file)
-    stores = [n.id for n in cfg.nodes if n.kind == "stmt" and any(u(w).startswith("metrics[") for w in node_writes(cfg, n.id))]
-    guards = [t.id for t in cfg.nodes if t.kind == "test" and t.ast is not None and canon(t.ast) == ("not", ("truthy", "math.isnan(value)"))]
-    ok = bool(stores) and len(guards) == 1 and cfg.path(cfg.entry, stores, avoid=guards) is None and \
-        [m for m, lab in cfg.succ[guards[0]] if lab == "true"] == stores[:1]
-    run.check(ok, "C18.EXCL", ff.qual, "metrics[mid] = value only if not isnan(value)",
+    node = inline_helpers(prog, ff)
+    cfg = CFG(node, ff.file)
+    ctor_params = ["component_id", "timestamp", "metrics"]
+    built = [c for c in find_calls(node, lambda c: u(c.func) == "ComponentMetricsData")]
+    if not built:
+        raise AnalysisError(f"{ff.qual}: no ComponentMetricsData is built")
+
+    def nan_test(t: ast.AST, value: ast.AST) -> str | None:
+        """Label of the edge of test `t` on which `value` is known not to be NaN."""
+        neg = False
+        while isinstance(t, ast.UnaryOp) and isinstance(t.op, ast.Not):
+            neg, t = not neg, t.operand
+        if isinstance(t, ast.Call) and u(t.func) in ("math.isnan", "isnan") and len(t.args) == 1 \
+                and not t.keywords and u(t.args[0]) == u(value):
+            return "true" if neg else "false"
+        return None
+
+    ok = True
+    n_dicts = 0
+    for c in built:
+        m = positional(c, ctor_params).get("metrics")
+        if m is None:
+            ok = False
+            continue
+        if isinstance(m, ast.Dict) and not m.keys:
+            continue  # no metric at all: the battery counts as incomplete
+        if isinstance(m, ast.DictComp):
+            n_dicts += 1
+            ok = ok and any(nan_test(i, m.value) == "true" for g in m.generators for i in g.ifs)
+            continue
+        if not isinstance(m, ast.Name):
+            ok = False
+            continue
+        n_dicts += 1
+        at = cfg.node_containing(c)
+        defs = {d for a in at for d in reaching_defs(cfg, a, m.id)}
+        for d in defs:
+            s = cfg.nodes[d].ast
+            val = s.value if isinstance(s, (ast.Assign, ast.AnnAssign)) else None
+            if isinstance(val, ast.DictComp):
+                ok = ok and any(nan_test(i, val.value) == "true" for g in val.generators for i in g.ifs)
+            elif not ((isinstance(val, ast.Dict) and not val.keys) or (
+                    isinstance(val, ast.Call) and u(val.func) == "dict" and not val.args and not val.keywords)):
+                ok = False
+        stores = [n for n in cfg.nodes if n.kind == "stmt" and any(
+            isinstance(w, ast.Subscript) and u(w.value) == m.id for w in node_writes(cfg, n.id))]
+        other = [n for n in cfg.nodes if n.ast is not None and n.kind == "stmt" and any(
+            method_call(k, m.id, a) for a in ("update", "setdefault", "__setitem__") for k in find_calls(n.ast, lambda _c: True))]
+        if other:
+            ok = False
+        for st in stores:
+            s = st.ast
+            if not isinstance(s, ast.Assign) or len(s.targets) != 1:
+                ok = False
+                continue
+            safe = {(t.id, lab) for t in cfg.nodes if t.kind == "test" and t.ast is not None
+                    for lab in [nan_test(t.ast, s.value)] if lab is not None}
+            if not safe:
+                ok = False
+                continue
+            # every path to the store takes a "not NaN" edge …
+            if cfg.path(cfg.entry, [st.id], edge_ok=lambda a, _b, lab: (a, lab) not in safe) is not None:
+                ok = False
+            # … and the tested value is not rebound between the test and the store
+            if isinstance(s.value, ast.Name):
+                after = [b for (t, lab) in safe for b, l2 in cfg.succ[t] if l2 == lab]
+                writers = [n.id for n in cfg.nodes if n.id != st.id and any(u(w) == s.value.id for w in node_writes(cfg, n.id))]
+                if any(cfg.path(a, [w], avoid=[st.id]) is not None and cfg.path(w, [st.id], avoid=[t for t, _ in safe]) is not None
+                       for a in after for w in writers):
+                    ok = False
+            elif not isinstance(s.value, ast.Name):
+                ok = False
+    run.check(ok and n_dicts >= 1, "C18.EXCL", ff.qual, "metrics[mid] = value only if not isnan(value)",
               "NaN metric values are stored (they would count as present)", node=ff.node, file=ff.file)
-    # working set handling
+
+
+# ---------------------------------------------------------------------------------------------
+class SetTerms:
+    """Set-algebra normal form of an expression at a CFG node (locals resolved through their single
+    reaching definition; `a & b` == `a.intersection(b)` == `b & a`)."""
+
+    def __init__(self, cfg: CFG, alias: dict[str, str], state: str) -> None:
+        self.cfg, self.alias, self.state = cfg, alias, state
+        self.reads: set[int] = set()  # nodes at which `state` was read while forming the last term
+
+    def term(self, nid: int, e: ast.AST, depth: int = 8) -> Any:  # noqa: C901
+        if isinstance(e, ast.Name):
+            defs = reaching_defs(self.cfg, nid, e.id)
+            if len(defs) == 1 and depth > 0:
+                s = self.cfg.nodes[defs[0]].ast
+                if isinstance(s, ast.Assign) and len(s.targets) == 1 and u(s.targets[0]) == e.id:
+                    return self.term(defs[0], s.value, depth - 1)
+                if isinstance(s, ast.AnnAssign) and u(s.target) == e.id and s.value is not None:
+                    return self.term(defs[0], s.value, depth - 1)
+            return self.alias.get(e.id, e.id)
+        if isinstance(e, ast.Call) and isinstance(e.func, ast.Attribute) and len(e.args) == 1 and not e.keywords \
+                and e.func.attr in ("intersection", "union", "difference"):
+            a, b = self.term(nid, e.func.value, depth), self.term(nid, e.args[0], depth)
+            return self._op(e.func.attr, a, b)
+        if isinstance(e, ast.BinOp) and isinstance(e.op, (ast.BitAnd, ast.BitOr, ast.Sub)):
+            a, b = self.term(nid, e.left, depth), self.term(nid, e.right, depth)
+            return self._op({ast.BitAnd: "intersection", ast.BitOr: "union", ast.Sub: "difference"}[type(e.op)], a, b)
+        if isinstance(e, ast.Call) and u(e.func) in ("set", "frozenset") and len(e.args) == 1 and not e.keywords:
+            return self.term(nid, e.args[0], depth)
+        if isinstance(e, ast.Attribute):
+            base = self.term(nid, e.value, depth)
+            text = f"{base}.{e.attr}" if isinstance(base, str) else u(e)
+            text = self.alias.get(text, text)
+            if text == self.state:
+                self.reads.add(nid)
+            return text
+        return u(e)
+
+    @staticmethod
+    def _op(name: str, a: Any, b: Any) -> Any:
+        if name == "difference":
+            return ("−", a, b)
+        return ("∩" if name == "intersection" else "∪", frozenset({a, b}))
+
+
+def _attr_writes(cfg: CFG, attr: str) -> list[int]:
+    return [n.id for n in cfg.nodes if n.kind == "stmt" and any(u(w) == attr for w in node_writes(cfg, n.id))]
+
+
+def _assigned_value(s: ast.AST | None) -> ast.AST | None:
+    return s.value if isinstance(s, (ast.Assign, ast.AnnAssign)) else None
+
+
+def check_working_set(run: Run, prog: Program) -> None:  # noqa: C901
     init = prog.func(f"{METH}:SendOnUpdate.__init__")
     upd = prog.func(f"{METH}:SendOnUpdate.update_working_batteries")
     run.analysed(upd.qual)
-    a = [s for s in body_walk(init.node) if isinstance(s, (ast.Assign, ast.AnnAssign))
-         and u(s.targets[0] if isinstance(s, ast.Assign) else s.target) == "self._working_batteries"]
-    ok_i = len(a) == 1 and u(a[0].value).replace(" ", "") == f"{init.params[1]}.intersection({init.params[2]}.batteries)"
-    b = [s for s in body_walk(upd.node) if isinstance(s, ast.Assign) and u(s.value).replace(" ", "")
-         == f"{upd.params[1]}.intersection(self._metric_calculator.batteries)"]
-    run.check(ok_i and len(b) == 1, "C18.EXCL", upd.qual, "working set = reported ∩ calculator batteries (both sites)",
+    WS, CALC = "self._working_batteries", "self._metric_calculator"
+    if len(init.params) < 3 or len(upd.params) < 2:
+        raise AnalysisError(f"{init.qual}: signature changed")
+    want = ("∩", frozenset({"REPORTED", "CALC.batteries"}))
+    # ---- construction
+    icfg = CFG(inline_helpers(prog, init), init.file)
+    alias_i = {init.params[1]: "REPORTED", CALC: "CALC", WS: "WORKING"}
+    stored = [cfg_n for cfg_n in _attr_writes(icfg, CALC)]
+    if all(u(_assigned_value(icfg.nodes[n].ast)) == init.params[2] for n in stored):
+        alias_i[init.params[2]] = "CALC"  # the parameter and the attribute are the same object
+    st_i = SetTerms(icfg, alias_i, "WORKING")
+    wr_i = _attr_writes(icfg, WS)
+    vals_i = [_assigned_value(icfg.nodes[n].ast) for n in wr_i]
+    ok_i = len(wr_i) == 1 and vals_i[0] is not None and st_i.term(wr_i[0], vals_i[0]) == want
+    # ---- update
+    unode = inline_helpers(prog, upd)
+    cfg = CFG(unode, upd.file)
+    st = SetTerms(cfg, {upd.params[1]: "REPORTED", CALC: "CALC", WS: "WORKING"}, "WORKING")
+    wr = _attr_writes(cfg, WS)
+    terms_u = [st.term(n, v) if v is not None else None for n in wr for v in [_assigned_value(cfg.nodes[n].ast)]]
+    ok_u = bool(wr) and all(t == want for t in terms_u)
+    # nobody else replaces the working set
+    for m in prog.cls(f"{METH}:SendOnUpdate").methods.values():
+        if m.name not in ("__init__", "update_working_batteries") and any(
+                u(w) == WS for n in body_walk(m.node) for w in writes_of(n) if isinstance(n, ast.stmt)):
+            ok_u = False
+    run.check(ok_i and ok_u, "C18.EXCL", upd.qual, "working set = reported ∩ calculator batteries (both sites)",
               "the initial working set and its updates are not both `reported working ∩ this calculator's "
               "batteries` (sibling sites disagree: a battery reported not working before a metric is first "
-              "requested would be aggregated)", node=(a[0] if a else init.node), file=init.file)
-    if len(b) == 1:
-        new_set = u(b[0].targets[0])
-        cfg = CFG(upd.node, upd.file)
-        sw = [n for n in cfg.nodes if isinstance(n.ast, ast.Assign) and u(n.ast.value).replace(" ", "") == f"self._working_batteries-{new_set}"]
-        wr = [n.id for n in cfg.nodes if n.kind == "stmt" and any(u(w) == "self._working_batteries" for w in node_writes(cfg, n.id))]
-        ok = len(sw) == 1 and bool(wr) and not any(cfg.path(w, [sw[0].id]) for w in wr)
+              "requested would be aggregated)", node=(icfg.nodes[wr_i[0]].ast if wr_i else init.node), file=init.file)
+    if ok_u:
+        # the loop over `old working − new`, with the old set read before it is replaced
+        stopped = ("−", "WORKING", want)
+        loops = []
+        for h in cfg.nodes:
+            if h.kind == "for" and isinstance(h.ast, ast.For):
+                st.reads = set()
+                if st.term(h.id, h.ast.iter) == stopped:
+                    loops.append((h, set(st.reads)))
+        ok = len(loops) == 1 and bool(loops[0][1]) and not any(
+            cfg.path(w, sorted(loops[0][1]), include_src=False) is not None for w in wr)
         run.check(ok, "C18.EXCL", upd.qual, "stopped = old working − new, computed before the old set is replaced",
                   "the set of batteries that stopped working is computed after the working set was already "
                   "replaced (it is then always empty and stale cached metrics survive)", node=upd.node, file=upd.file)
         if ok:
-            sname = u(sw[0].ast.targets[0])  # type: ignore[union-attr]
-            loops = [s for s in body_walk(upd.node) if isinstance(s, ast.For) and u(s.iter) == sname]
-            ok = len(loops) == 1
-            if ok:
-                t = u(loops[0]).replace(" ", "")
-                bv = u(loops[0].target)
-                ok = f"self._cached_metrics.pop({bv},None)" in t and f"self._bat_inv_map[{bv}]" in t and \
-                    t.count("self._cached_metrics.pop(") == 2
+            loop: ast.For = loops[0][0].ast  # type: ignore[assignment]
+            bv = u(loop.target)
+            CM = "self._cached_metrics"
+
+            def pops(scope: list[ast.stmt], key: str) -> bool:
+                return any(method_call(c, CM, "pop") and len(c.args) == 2 and not c.keywords and u(c.args[0]) == key
+                           for s in scope for c in find_calls(s, lambda _c: True))
+
+            own = [s for s in loop.body if not isinstance(s, ast.For)]
+            inner = [n for s in loop.body for n in walk_no_nested(s) if isinstance(n, ast.For)
+                     and u(n.iter) in (f"self._bat_inv_map[{bv}]",) and isinstance(n.target, ast.Name)]
+            ok = isinstance(loop.target, ast.Name) and pops(own, bv) and len(inner) == 1 and pops(inner[0].body, u(inner[0].target))
             run.check(ok, "C18.EXCL", upd.qual, "evict cached metrics of the stopped batteries and their inverters",
                       "cached metrics of batteries that stopped working are not evicted", node=upd.node, file=upd.file)
-        sets = [cfg.nodes[w].ast for w in wr]
-        ok = all(isinstance(s, ast.Assign) and u(s.value) == new_set for s in sets)
-        run.check(ok, "C18.EXCL", upd.qual, f"self._working_batteries = {new_set}",
+        run.check(ok_u, "C18.EXCL", upd.qual, "self._working_batteries = reported ∩ calculator batteries",
                   "the working set is replaced by something else than the filtered new set", node=upd.node, file=upd.file)
     calls = [c for m in prog.cls(f"{METH}:SendOnUpdate").methods.values()
-             for c in find_calls(m.node, lambda c: method_call(c, "self._metric_calculator", "calculate"))]
-    ok = len(calls) == 1 and [u(x) for x in calls[0].args] == ["self._cached_metrics", "self._working_batteries"]
+             for c in find_calls(m.node, lambda c: method_call(c, CALC, "calculate"))]
+    ok = len(calls) == 1
+    if ok:
+        a = positional(calls[0], prog.func(f"{MC}:SoCCalculator.calculate").params[1:])
+        ok = len(calls[0].args) + len(calls[0].keywords) == 2 and {k: u(v) for k, v in a.items()} == {
+            "metrics_data": "self._cached_metrics", "working_batteries": WS}
     run.check(ok, "C18.EXCL", f"{METH}:SendOnUpdate", "calculate(self._cached_metrics, self._working_batteries)",
               "the calculator is not given the cached metrics and the current working set", node=calls[0] if calls else None,
               file=init.file)
@@ -297,6 +613,105 @@ CONTROLS = [
 ]
 
 
+# ---------------------------------------------------------------------------------------------
+# structural controls: the same kind of defects, located by structure in the tree under analysis
+# (whole-source replacements, so they apply to every shape of the anchors); they come in addition
+# to the textual controls above, which are skipped when their text has been refactored away
+# ---------------------------------------------------------------------------------------------
+def _splice(source: str, edits: list[tuple[ast.AST, str]]) -> str:
+    lines = source.splitlines(keepends=True)
+    starts = [0]
+    for ln in lines:
+        starts.append(starts[-1] + len(ln))
+
+    def off(lineno: int, col: int) -> int:
+        return starts[lineno - 1] + len(lines[lineno - 1].encode("utf-8")[:col].decode("utf-8"))
+
+    spans = sorted(((off(n.lineno, n.col_offset), off(n.end_lineno, n.end_col_offset), new)  # type: ignore[attr-defined]
+                    for n, new in edits), reverse=True)
+    for a, b, new in spans:
+        source = source[:a] + new + source[b:]
+    return source
+
+
+def structural_controls(prog: Program) -> list[tuple[str, str, str, str, str]]:  # noqa: C901
+    out: list[tuple[str, str, str, str, str]] = []
+
+    def seg(mod_src: str, n: ast.AST) -> str:
+        t = ast.get_source_segment(mod_src, n)
+        if t is None:
+            raise AnalysisError("source segment not available")
+        return t
+
+    def add(name: str, module: str, edits: list[tuple[ast.AST, str]], rule: str) -> None:
+        src = prog.module(module).source
+        if edits:
+            out.append((name, module, src, _splice(src, edits), rule))
+
+    def class_nodes(cls_qual: str) -> list[ast.AST]:
+        return [n for m in prog.cls(cls_qual).methods.values() for n in body_walk(m.node)]
+
+    mc = prog.module(MC).source
+    for cname, wrapper, mutate in (("SoCCalculator", "Percentage.from_percent", "100.0 - ({})"),
+                                   ("CapacityCalculator", "Energy.from_watt_hours", "({}) * 2")):
+        fn = prog.func(f"{MC}:{cname}.calculate")
+        loops = [s for s in fn.node.body if isinstance(s, ast.For)]
+        if len(loops) == 1 and len(fn.params) >= 3:
+            add(f"{cname}: loop over all the data", MC, [(loops[0].iter, fn.params[1])], "C18.EXCL")
+        nodes = class_nodes(f"{MC}:{cname}")
+        # the sentinel test after the loop, reversed
+        cmps = [n for n in body_walk(fn.node) if isinstance(n, ast.Compare) and len(n.ops) == 1
+                and isinstance(n.ops[0], (ast.Eq, ast.NotEq)) and "_MIN_TIMESTAMP" in (u(n.left), u(n.comparators[0]))]
+        if len(cmps) == 1:
+            c = cmps[0]
+            flipped = "!=" if isinstance(c.ops[0], ast.Eq) else "=="
+            add(f"{cname}: sentinel test reversed", MC, [(c, f"{seg(mc, c.left)} {flipped} {seg(mc, c.comparators[0])}")], "C18.EXCL")
+        # the sentinel keeps the earliest instead of the latest timestamp
+        mx = [n for n in nodes if isinstance(n, ast.Call) and u(n.func) == "max" and len(n.args) == 2
+              and any(isinstance(a, ast.Attribute) and a.attr == "timestamp" for a in n.args)]
+        if len(mx) == 1:
+            add(f"{cname}: sentinel moved by min", MC, [(mx[0].func, "min")], "C18.EXCL")
+        # the wrapped result is not the aggregate
+        wr = [n for n in nodes if isinstance(n, ast.Call) and u(n.func) == wrapper and len(n.args) == 1
+              and not isinstance(n.args[0], ast.Constant)]
+        if wr:
+            add(f"{cname}: result distorted", MC, [(w.args[0], mutate.format(seg(mc, w.args[0]))) for w in wr], "C18.FORM")
+    soc_nodes = class_nodes(f"{MC}:SoCCalculator")
+
+    def is_mm(n: ast.AST, names: tuple[str, ...] = ("min", "max")) -> bool:
+        return isinstance(n, ast.Call) and u(n.func) in names and len(n.args) == 2 and not n.keywords
+
+    clamps = []
+    for n in soc_nodes:
+        if is_mm(n):
+            inner = [a for a in n.args if is_mm(a, ("max",) if u(n.func) == "min" else ("min",))]  # type: ignore[attr-defined]
+            consts = [a for a in n.args if isinstance(a, ast.Constant)]  # type: ignore[attr-defined]
+            if len(inner) == 1 and len(consts) == 1:
+                core = [a for a in inner[0].args if not isinstance(a, ast.Constant)]  # type: ignore[attr-defined]
+                if len(core) == 1:
+                    clamps.append((n, core[0]))
+    if len(clamps) == 1:
+        add("SoCCalculator: clamp dropped", MC, [(clamps[0][0], seg(mc, clamps[0][1]))], "C18.RANGE")
+    divs = [n for n in soc_nodes if isinstance(n, ast.BinOp) and isinstance(n.op, ast.Div)
+            and any(isinstance(x, ast.BinOp) and isinstance(x.op, ast.Sub) for x in ast.walk(n.left))]
+    if len(divs) == 1:
+        sub = [x for x in ast.walk(divs[0].left) if isinstance(x, ast.BinOp) and isinstance(x.op, ast.Sub)][0]
+        add("SoCCalculator: rescaling numerator reversed", MC,
+            [(sub, f"{seg(mc, sub.right)} - {seg(mc, sub.left)}")], "C18.FORM")
+    # fetcher: the NaN test tests something else
+    ff = prog.func(f"{FETCH}:LatestMetricsFetcher.fetch_next")
+    nan = [n.func for n in body_walk(ff.node) if isinstance(n, ast.Call) and u(n.func) in ("math.isnan", "isnan")]
+    add("fetcher: NaN values are kept", FETCH, [(f, "math.isinf") for f in nan], "C18.EXCL")
+    # working set: unfiltered at construction / on update
+    for mname in ("__init__", "update_working_batteries"):
+        m = prog.func(f"{METH}:SendOnUpdate.{mname}")
+        ws = [n for n in body_walk(m.node) if isinstance(n, (ast.Assign, ast.AnnAssign)) and n.value is not None
+              and any(u(t) == "self._working_batteries" for t in (n.targets if isinstance(n, ast.Assign) else [n.target]))]
+        if ws and len(m.params) >= 2:
+            add(f"SendOnUpdate.{mname}: working set not intersected", METH, [(n.value, m.params[1]) for n in ws], "C18.EXCL")  # type: ignore[misc]
+    return out
+
+
 def run_rules(run: Run, prog: Program) -> None:
     check_form(run, prog)
     check_excl(run, prog)
@@ -316,11 +731,16 @@ def check(run: Run, prog: Program, tier: str) -> str:
     run.floor("C18.EXCL", 14)
     from ..engine.controls import run_controls
 
-    run_controls(run, CONTROLS, run_rules, tier)
+    run_controls(run, CONTROLS + structural_controls(prog), run_rules, tier, base_prog=prog)
     run.assume("capacity >= 0 and lower <= upper (the property's quantifier): weights are non-negative, so "
                "a weighted mean of values clamped to [0,100] stays in [0,100]")
+    run.assume("metric values are not NaN inside the calculators (the fetcher drops NaN, C18.EXCL): order "
+               "comparisons are read as total (`not a >= b` is `a < b`)")
     run.undecided("the absolute-tolerance zero test is not scale-free for tiny totals (numeric)")
-    return ("Polynomial normal forms of the loop-body accumulations identify numerator/denominator and "
-            "their shared weight; clamp idiom, homogeneity degree in capacity and sign of the soc "
-            "coefficient give range / scale-invariance / monotonicity; guard-dominance on the CFG "
-            "decides which batteries contribute; sibling rules decide the working-set handling.")
+    return ("Every path of one loop iteration and of the code after the loop is executed symbolically; "
+            "polynomial normal forms of what a qualifying iteration adds to the loop-carried variables "
+            "identify numerator/denominator and their shared weight; the quotient by the weight is the "
+            "per-battery value s, whose min/max nest gives the clamp interval and whose core gives the "
+            "rescaling; homogeneity degree in capacity and sign of the soc coefficient give scale-invariance "
+            "/ monotonicity; the branch facts of each path decide which batteries contribute; sibling rules "
+            "on set-algebra terms decide the working-set handling.")
